@@ -16,11 +16,11 @@ const (
 	Slice
 	Array
 	Map
-	Named  // reference to a declaration
-	Chan   // unsupported constituents (C09 only)
-	Func   // func() / func(int) int
-	Iface  // interface{}
-	UPtr   // unsafe.Pointer
+	Named   // reference to a declaration
+	Chan    // unsupported constituents (C09 only)
+	Func    // func() / func(int) int
+	Iface   // interface{}
+	UPtr    // unsafe.Pointer
 	UStruct // unnamed struct
 )
 
@@ -31,9 +31,9 @@ type Type struct {
 	Elem   *Type
 	Key    *Type
 	Len    int
-	Decl   *Decl    // Named
-	Fields []Field  // UStruct
-	Text   string   // Func / Chan spelled out
+	Decl   *Decl   // Named
+	Fields []Field // UStruct
+	Text   string  // Func / Chan spelled out
 }
 
 // Field of a struct.
@@ -45,10 +45,10 @@ type Field struct {
 
 // Decl is a named type declaration.
 type Decl struct {
-	Name    string
-	Pkg     *ExtPkg // nil = the subject package
-	Under   *Type   // non-struct underlying type (nil for structs)
-	Fields  []Field // struct fields (IsStruct)
+	Name     string
+	Pkg      *ExtPkg // nil = the subject package
+	Under    *Type   // non-struct underlying type (nil for structs)
+	Fields   []Field // struct fields (IsStruct)
 	IsStruct bool
 	// user methods: "", "ptr" (func (a *N) M(b *N)), "val" (func (a N) M(b N))
 	UserEqual   string
